@@ -1,6 +1,6 @@
 """C20 Length-prefixed record streams decode identically under every chunking."""
 import re
-from rn import cfg
+from rn import util, cfg
 from rn.absint import Interp, BV, VecV, Ref, Adt, Undecided, Unsupported, Panic
 from rn.facts import pl_fields, op_place
 from rn.flow import Taint, field_place_src
@@ -38,6 +38,8 @@ def run(ck, fb):
     r20c(ck, fb)
     r20d(ck, fb)
     r20e(ck, fb)
+    r20f(ck, fb)
+    r20g(ck, fb)
 
 
 def r20a(ck, fb):
@@ -356,3 +358,112 @@ def r20d(ck, fb):
                 # the drain must itself be a loop or the enclosing loop must come back to it before reading again (checked above)
                 pass
         ck.require(ok, 'R20d', key + ':alternation', b.where(), why, 'append[..read_len] -> next_message_vec before next read/return')
+
+
+READ_RX = r'AsyncReadExt::read$|std::io::Read::read$'
+
+
+def _on_cycle(b, bb):
+    nxt = b.blocks[bb]['t'].get('t')
+    return nxt is not None and bb in cfg.reach_from(b, [nxt])
+
+
+def _data_sized(b, op):
+    """the operand is (a reference / slice of) a vec![0; n] with n not a literal"""
+    d = cfg.strip_calls(b, cfg.describe_operand(b, op))
+    seen = 0
+    while d.get('k') == 'call' and seen < 6:
+        f = (d['term'].get('f') or {}).get('d', '')
+        if f.endswith('vec::from_elem'):
+            n = cfg.describe_operand(b, d['term']['args'][1])
+            return n.get('k') != 'const'
+        if not d['term'].get('args'):
+            break
+        d = cfg.strip_calls(b, cfg.describe_operand(b, d['term']['args'][0]))
+        seen += 1
+    return False
+
+
+def r20f(ck, fb):
+    ck.rule('R20f', 'a record body is read completely: wherever the store reads into a buffer whose length comes from the data (vec![0; len] with a '
+                    'decoded or requested length), the read is repeated until the buffer is full (the read call lies on a loop, in the function or in '
+                    'the helper the buffer is handed to) or is a read_exact. One read may return fewer bytes than asked for - tokio::fs::File returns '
+                    'at most 2 MiB per call - so a single read followed by "not enough" drops that record and, in the consumers that stop at the '
+                    'first error, every record after it')
+    n = 0
+    for b in sorted(fb.bodies.values(), key=lambda x: x.name):
+        if '::tests::' in b.name or not b.name.startswith(('rnacos::', '<rnacos::')):
+            continue
+        for s0 in b.sites:
+            if not any(_data_sized(b, a) for a in s0.args[:3]):
+                continue
+            names = [x for x in (s0.callee, s0.full, s0.resolved, s0.rfull) if x]
+            ok = None
+            if any(re.search(READ_RX, x) for x in names):
+                ok = _on_cycle(b, s0.bb)
+            elif any(x.endswith('read_exact') for x in names):
+                ok = True
+            else:
+                t = util._local_target(b, s0)
+                if t is None:
+                    continue
+                inner = []
+                for x in util.region(fb, t, 1):
+                    inner += [(x, r0) for r0 in x.calls(READ_RX)] + [(x, r0) for r0 in x.calls(r'read_exact$')]
+                if not inner:
+                    continue
+                ok = all(_on_cycle(x, r0.bb) or (r0.callee or '').endswith('read_exact') for (x, r0) in inner)
+            n += 1
+            ck.analysed(b)
+            ck.require(ok, 'R20f', 'read-until-full:%s' % b.name.replace('::{closure#0}', '').split('rnacos::')[-1], s0.where(),
+                       'a buffer sized from the data is filled with one read call; a short read (over 2 MiB with tokio::fs::File) is reported as '
+                       '"not enough" although the bytes are in the file: the record, and in data_to_sqlite every record after it, is dropped',
+                       'repeated until full')
+    ck.floor('R20f', 'reads into data-sized buffers', n, 2)
+
+
+def r20g(ck, fb):
+    from rn.facts import pl_local
+    ck.rule('R20g', 'an incomplete record means "read on", for the first record of a stream as for any other: in every consumer that feeds chunks into '
+                    'MessageBufReader and asks next_message_vec, the outcome None (record not complete yet) leads back to a read of the next chunk; '
+                    'it is not an error by itself. The snapshot header is an ordinary record whose size grows with the member and address lists')
+    n = 0
+    for b in sorted(fb.bodies.values(), key=lambda x: x.name):
+        if '::tests::' in b.name or b.name.startswith(PU):
+            continue
+        nm = b.calls('MessageBufReader::next_message_vec$')
+        ap = b.calls('MessageBufReader::append_next_buf$')
+        reads = [s0.bb for s0 in b.calls(READ_RX + r'|::read_buf$')]
+        if not nm or not ap or not reads:
+            continue
+        for s0 in nm:
+            dst = s0.dst
+            none_targets = []
+            # the switch on the discriminant of the result
+            for i, blk in enumerate(b.blocks):
+                t = blk['t']
+                if t['k'] != 'switch':
+                    continue
+                d = cfg.describe_operand(b, t['discr'])
+                if d.get('k') != 'discr':
+                    continue
+                if pl_local(d['pl']) != dst:
+                    continue
+                names = dict((v, nme) for v, nme in (d.get('variants') or []))
+                tested = [v for v, _ in t['targets']]
+                for v, tb in t['targets']:
+                    if names.get(v) == 'None':
+                        none_targets.append(tb)
+                if 'None' in [nme for v, nme in (d.get('variants') or []) if v not in tested]:
+                    none_targets.append(t['otherwise'])
+            if not none_targets:
+                continue
+            n += 1
+            ck.analysed(b)
+            r = cfg.reach_from(b, none_targets)
+            ck.require(any(x in r for x in reads) or any(x in none_targets for x in reads), 'R20g',
+                       'incomplete-record-reads-on:%s' % b.name.replace('::{closure#0}', '').split('rnacos::')[-1], s0.where(),
+                       'when next_message_vec answers None after the chunk that was read, no further chunk is read: a first record longer than the '
+                       'chunk (a snapshot header with some 15-35 node addresses exceeds 1024 bytes) makes the whole stream unreadable',
+                       'None leads back to a read')
+    ck.floor('R20g', 'chunk consumers with a None outcome', n, 5)
